@@ -171,6 +171,43 @@ def gen_dependent_family(rng, count):
     return cases
 
 
+def gen_two_pools(rng, count):
+    """a second pool instance B (one worker, no submissions): jobs of A and clients stop or destroy it, then more work is
+    submitted to A, which must keep all its workers (`_current` is one thread-local shared by all instances). Either any
+    number of B.stop() calls, or exactly one destruction of B and nothing else on B."""
+    cases = []
+    for _ in range(count):
+        nw = rng.randint(1, 2)
+        nc = rng.randint(1, 2)
+        destroy = rng.random() < 0.35
+        clients = [[rand_submit(rng, False, bare=0.05) for _ in range(rng.randint(1, 3))] for _ in range(nc)]
+        if destroy:
+            ci = rng.randrange(nc)
+            if rng.random() < 0.7:
+                k = rng.choice([n for n, o in enumerate(clients[ci]) if o not in ("stopB", "destroyB")])
+                o = clients[ci][k]
+                clients[ci][k] = o + ("B" if ":" in o else ":B")
+            else:
+                clients[ci].insert(rng.randint(0, len(clients[ci])), "destroyB")
+        else:
+            for _ in range(rng.randint(1, 3)):
+                ci = rng.randrange(nc)
+                if rng.random() < 0.75:
+                    k = rng.choice([n for n, o in enumerate(clients[ci]) if o not in ("stopB", "destroyB")])
+                    o = clients[ci][k]
+                    clients[ci][k] = o + ("b" if ":" in o else ":b")
+                else:
+                    clients[ci].insert(rng.randint(0, len(clients[ci])), "stopB")
+        for ops in clients:       # further submissions to A afterwards
+            ops += [rand_submit(rng, False, bare=0.0) for _ in range(rng.randint(1, 2))]
+        if rng.random() < 0.25:
+            clients[0].append("stop")
+        n = nw + 1 + nc
+        opts = "B cvy" if rng.random() < 0.3 else "B"
+        cases.append(make_case(nw, clients, random_sched(rng, n, rng.choice([0, 10, 30, 60, 100])), opts))
+    return cases
+
+
 def gen_exhaustive(shapes, length):
     """every schedule prefix of `length` entries over the scenario's threads"""
     cases = []
@@ -196,7 +233,8 @@ def parse(case, out):
     hdr = case["lines"][0].split()
     nw = int(hdr[3])
     nc = sum(1 for l in case["lines"] if l.split()[0] == "c")
-    info = {"nw": nw, "nt": nw + nc, "jobs": {}, "events": [], "quiescent": False, "crash": None, "assert": None,
+    has_b = "B" in hdr[4:]
+    info = {"nw": nw, "nt": nw + nc + (1 if has_b else 0), "hasB": has_b, "bw": nw if has_b else None, "b_events": [], "jobs": {}, "events": [], "quiescent": False, "crash": None, "assert": None,
             "threads": None, "final": {}, "pool": None, "fin": set(), "ops": [], "last": {}}
     for idx, l in enumerate(out):
         w = l.split()
@@ -218,6 +256,8 @@ def parse(case, out):
                 jb["values"].append((t, idx))
         elif w[0] in ("stop-begin", "stop-end", "destroy-begin", "destroyed", "destroy-skip"):
             info["events"].append((w[0], int(w[1][1:]), idx))
+        elif w[0] in ("stopB-begin", "stopB-end", "destroyB-begin", "destroyedB", "destroyB-skip"):
+            info["b_events"].append((w[0], int(w[1][1:]), idx))
         elif w[0] == "quiescent":
             info["quiescent"] = True
         elif w[0] == "threads":
@@ -252,12 +292,12 @@ class PoolSuite(Suite):
         if tier == "quick":
             return with_cv_yield(rng, gen_stop_family(rng, 3000) + gen_destroy_client(rng, 800) + gen_destroy_job(rng, 800)
                                  + gen_idle_family(rng, 600) + gen_dependent_family(rng, 800)
-                                 + gen_exhaustive(EXH_SHAPES_2T[:4], 8))
+                                 + gen_exhaustive(EXH_SHAPES_2T[:4], 8)) + gen_two_pools(rng, 800)
         base = (gen_stop_family(rng, 60000) + gen_destroy_client(rng, 14000) + gen_destroy_job(rng, 14000) + gen_idle_family(rng, 8000)
                 + gen_dependent_family(rng, 12000))
         exh = gen_exhaustive(EXH_SHAPES_2T, 12) + gen_exhaustive(EXH_SHAPES_3T, 8)
         exh_cv = [dict(c, lines=[c["lines"][0] + " cvy"] + c["lines"][1:]) for c in gen_exhaustive(EXH_SHAPES_2T[:6], 11)]
-        return with_cv_yield(rng, base) + exh + exh_cv
+        return with_cv_yield(rng, base) + exh + exh_cv + gen_two_pools(rng, 12000)
 
     def normalize(self, lines):
         """the order in which stop() destroys the closures of the swapped-out queue is std::deque's (unspecified; libstdc++
@@ -333,11 +373,16 @@ class PoolSuite(Suite):
             why = {t: (i["last"].get(t) or ["?"]) for t in blocked}
             user_wait = any(why[t][0] == "flag-block" for t in blocked)
             queued = int(i["pool"].get("queue", 0)) if isinstance(i["pool"], dict) else 0
-            sleepers = [t for t in blocked if why[t][0] == "cv-block"]
+            sleepers = [t for t in blocked if why[t][:2] == ["cv-block", "cv"]]
+            b_begun = any(k in ("stopB-begin", "destroyB-begin") for k, t, idx in i["b_events"])
             bad = []
             for t in blocked:
                 op = why[t]
                 if op[0] == "flag-block":
+                    continue
+                if op[:2] == ["cv-block", "cvB"]:
+                    if b_begun:
+                        bad.append(t)        # B was stopped but its worker still sleeps
                     continue
                 if op[0] == "cv-block":
                     if begins:
@@ -348,13 +393,17 @@ class PoolSuite(Suite):
                     if why.get(u, ["?"])[0] == "flag-block":
                         continue
                 bad.append(t)
-            if bad and begins:
+            if bad and (begins or b_begun):
                 msgs.append("deadlock: stop()/destructor did not terminate, threads %s are blocked (%s)" % (
                     blocked, ", ".join("t%d:%s" % (t, " ".join(why[t])) for t in blocked)))
                 return msgs
             if bad:
                 msgs.append("deadlock: threads %s are blocked although nobody stopped the pool (%s)" % (
                     bad, ", ".join("t%d:%s" % (t, " ".join(why[t])) for t in bad)))
+            lost = [t for t in range(nw) if th.get(t) == "F"]
+            if not begins and lost:
+                msgs.append("worker-lost: worker(s) %s returned from worker() although the pool was never stopped "
+                            "(later submissions are never executed)" % lost)
             if not begins and queued > 0 and sleepers:
                 msgs.append("forgotten-idle: %d submission(s) sit in the queue while worker(s) %s sleep in the condition wait "
                             "(lost wake-up; a job waiting for them hangs)" % (queued, sleepers))
@@ -411,7 +460,8 @@ class PoolSuite(Suite):
         st = {"workers": {}, "clients": {}, "kinds": {}, "fates": {}, "rejected": 0, "swapped_out": 0, "client_stops": 0,
               "job_stops": 0, "self_detach": 0, "concurrent_stops": 0, "destroy_by_client": 0, "destroy_by_job": 0,
               "destroy_by_closure_dtor": 0, "idle_ends": 0, "deadlocks": 0, "nested_submissions": 0, "cv_blocks": 0, "join_blocks": 0, "user_waits_blocked": 0,
-              "user_deadlock_ends": 0, "dependent_pairs": 0}
+              "user_deadlock_ends": 0, "dependent_pairs": 0,
+              "cv_entry_yield_cases": 0, "lock_blocks": 0, "two_pool_cases": 0, "other_pool_stops": 0, "other_pool_destroys": 0}
         for c in cases:
             o = outs.get(str(c["id"]), [])
             try:
@@ -450,6 +500,11 @@ class PoolSuite(Suite):
                 st["idle_ends" if not begins else "deadlocks"] += 1
             st["cv_blocks"] += sum(1 for l in i["ops"] if "cv-block" in l)
             st["join_blocks"] += sum(1 for l in i["ops"] if "join-block" in l)
+            st["cv_entry_yield_cases"] += 1 if "cvy" in c["lines"][0].split()[4:] else 0
+            st["lock_blocks"] += sum(1 for l in i["ops"] if "lock-block" in l)
+            st["two_pool_cases"] += 1 if i["hasB"] else 0
+            st["other_pool_stops"] += sum(1 for k, t, idx in i["b_events"] if k == "stopB-begin")
+            st["other_pool_destroys"] += sum(1 for k, t, idx in i["b_events"] if k == "destroyB-begin")
             st["user_waits_blocked"] += sum(1 for l in i["ops"] if "flag-block" in l)
             st["dependent_pairs"] += sum(1 for l in c["lines"] if l.startswith("c ") for w in l.split()[1:] if ":" in w and "w" in w.split(":")[1])
             if i["quiescent"] and any((i["last"].get(t) or ["?"])[0] == "flag-block" for t, s_ in (i["threads"] or {}).items() if s_ != "F"):
